@@ -23,6 +23,7 @@ Everything observed with an integer-valued max_volume has key None.
 from __future__ import annotations
 
 import math
+import zlib
 from decimal import Decimal, InvalidOperation
 from fractions import Fraction
 
@@ -320,6 +321,16 @@ def run_case(ctx, case):
         raise ValueError(kind)
 
 
+def _make_wl(cls, case, m, auto):
+    """A fifth of the worklists get their limit by assignment to the public attribute (deterministic per case)."""
+    if zlib.crc32(repr(sorted((k, repr(v)) for k, v in case.items() if k != "index")).encode()) % 5 == 0:
+        wl = cls(max_volume=(950 if float(m) != 950 else 200), auto_split=True)
+        wl.max_volume = m
+        wl.auto_split = auto
+        return wl
+    return cls(max_volume=m, auto_split=auto)
+
+
 def _run_helper(ctx, case):
     import robotools.worklists.utils as U
 
@@ -333,6 +344,16 @@ def _run_helper(ctx, case):
         except Exception as e:
             out, exc = None, e
         _judge_partition(ctx, v, m, out, exc, "direct")
+        if isinstance(out, list) and out and (zlib.crc32(repr((v, m)).encode()) % 7 == 0):
+            # the returned list is the caller's: a caller that consumes it (pop) and asks again for the same
+            # pair must get the full list of steps again
+            out.clear()
+            try:
+                again, exc2 = U.partition_volume(v, max_volume=m), None
+            except Exception as e:
+                again, exc2 = None, e
+            ctx.count("helper_asked_again_after_consuming_the_result")
+            _judge_partition(ctx, v, m, again, exc2, "direct")
         if v > m or (v > 0 and _near_multiple(v, m)):
             nontrivial = True
     att.spy_log[SPY].clear()
@@ -367,7 +388,7 @@ def _run_transfer(ctx, case):
     auto = bool(case["auto_split"])
     nonint = _nonint(m)
     cls = robotools.EvoWorklist if dev == "evo" else robotools.FluentWorklist
-    wl = cls(max_volume=m, auto_split=auto)
+    wl = _make_wl(cls, case, m, auto)
     if case.get("src") == "trough":
         src = robotools.Trough("SRC", 8, 1, min_volume=0, max_volume=1e9, initial_volumes=1e8)
     else:
@@ -464,7 +485,7 @@ def _run_transfer_multi(ctx, case):
     n = len(vs)
     nonint = _nonint(m)
     cls = robotools.EvoWorklist if dev == "evo" else robotools.FluentWorklist
-    wl = cls(max_volume=m, auto_split=True)
+    wl = _make_wl(cls, case, m, True)
     src = robotools.Labware("SRC", 8, 2, min_volume=0, max_volume=1e9, initial_volumes=1e8)
     dst = robotools.Labware("DST", 8, 3, min_volume=0, max_volume=1e9)
     rows = "ABCDEFGH"
